@@ -92,7 +92,7 @@ type Cred struct {
 }
 
 type Op struct {
-	Op    string `json:"op"` // connect pull remove other query multi len
+	Op    string `json:"op"`             // connect pull remove other query multi len
 	Img   int    `json:"img"`            // index into images (pull/remove)
 	Auth  *Auth  `json:"auth,omitempty"` // pull
 	BadBE bool   `json:"badbe"`          // backend CRI call fails
